@@ -6,10 +6,11 @@
    locations it IS granted whatever the policy answers (C12_granted_when_exactly_enough_partial); with fewer than n
    it waits and the state is untouched (C12_waits_when_short, C12_failed_evaluation_changes_nothing), so waiting never
    consumes capacity; validity on slot levels is count < slots (C12_slot_validity).
-   "partial": C12_eventually (liveness over whole histories) is not proved.
+   C12_valid_iff_fits: valid <-> fits the free capacity.  C12_quiescent_partial: a wake-up round without grant leaves
+   every waiter ungrantable in the final state.  C12_eventually (liveness over whole histories) is not proved.
    Refuted: C12_rollback_blocks_refuted (known finding: a rolled-back job keeps the inner slot of its step). *)
 From Coq Require Import List Bool ZArith NArith Lia.
-From SF Require Import Base.Str Hardware.Model Sched.Model Sched.Proofs Sched.Witness.
+From SF Require Import Base.Str Hardware.Model Hardware.Proofs Sched.Model Sched.Proofs Sched.History Sched.Quiesce Sched.Witness Sched.Examples.
 Import ListNotations.
 Local Open Scope string_scope. Local Open Scope list_scope.
 
@@ -49,6 +50,69 @@ Theorem C12_slot_validity : forall st reqs job l,
   Ok (N.ltb (N.of_nat (length (running_jobs st job l))) (match lv_slots l with Some s => s | None => 1%N end)).
 Proof. exact slot_level_valid. Qed.
 
+(* validity on a level with declared hardware is EXACTLY "the requirement fits into capacity - ledger" (cores, memory,
+   every mount point of the requirement), whenever the ledger is within the capacity (which C10_capacity proves
+   for every conformant history on the flat domain): so a request is found valid iff a location has enough free capacity *)
+Theorem C12_valid_iff_fits : forall st reqs job l cap rq cur,
+  lv_cap l = Some cap -> lookup (req_key l) reqs = Some rq ->
+  cur = (match lookup (lv_name l) (hwloc st) with Some h => h | None => default_hw end) ->
+  wf cap -> wf cur -> wf rq ->
+  (forall m, In m (mounts cur) -> In m (mounts cap)) -> (forall m, (size_at cur m <= size_at cap m)%Z) ->
+  (level_valid st reqs job l = Ok true <->
+   (cores cur + cores rq <= cores cap)%Z /\ (mem cur + mem rq <= mem cap)%Z /\
+   forall m, In m (mounts rq) -> In m (mounts cap) /\ (size_at cur m + size_at rq m <= size_at cap m)%Z).
+Proof. exact cap_level_valid_iff. Qed.
+
+(* C12_quiescent_partial: a wake-up round ([wake_round]: after notify_all every waiter re-evaluates once, in any order
+   [ws]) in which nothing was granted leaves the state unchanged, and EVERY waiter has been evaluated in that final
+   state and found fewer valid locations than it needs: at the quiescent point no waiter could be allocated.
+   "partial": rounds in which some waiter IS granted need monotonicity of validity under reservations of others
+   (not proved); asyncio's delivery of the wake-up is exercised on the real scheduler, not modelled. *)
+Theorem C12_quiescent_partial : forall ws st st',
+  wake_round st ws = Ok (st', []) ->
+  st' = st /\ forall w, In w ws -> exists vn, try_waiter st w = Ok (st, vn, false).
+Proof. exact wake_round_quiescent. Qed.
+
+(* C12_quiescent — rounds in which waiters ARE granted, on flat locations with declared hardware or slots (single-location
+   requests; domain and [conformant], [Inv] as in Props/C10.v): start in any state satisfying the scheduler invariant
+   [Inv] (e.g. any state reached by a conformant history: inv_run), let the waiters re-evaluate in any order
+   (a history of evaluations only, [only_attempts]).  A request that found fewer valid locations than it needs at
+   its turn is still short of valid locations in the state at the END of the round, whatever was granted to others
+   in between: evaluating it there again returns "not granted".  (Proof: reservations and the jobs counted by _get_running_jobs only grow
+   along the round; by C12_valid_iff_fits / C12_slot_validity validity is antitone in them.)  Together with
+   C12_valid_iff_fits: at the quiescent point no waiting request has enough free capacity on enough locations.
+   Stacked locations are outside this theorem (C12_rollback_blocks_refuted: false for stacked slot locations). *)
+Theorem C12_quiescent : forall locs,
+  (forall l1 l2, In l1 locs -> In l2 locs -> lv_name l1 = lv_name l2 -> l1 = l2) ->
+  (forall l cap, In l locs -> lv_cap l = Some cap -> wfr cap /\ In "/" (mounts cap)) ->
+  forall st G pre job cands reqs n chosen post st' s_i vn,
+  Inv locs st G ->
+  conformant locs st (pre ++ EAttempt job cands reqs n chosen :: post) ->
+  only_attempts (pre ++ EAttempt job cands reqs n chosen :: post) ->
+  run st (pre ++ EAttempt job cands reqs n chosen :: post) = Ok st' ->
+  run st pre = Ok s_i -> attempt s_i job cands reqs n chosen = Ok (s_i, vn, false) -> (length vn < n)%nat ->
+  forall v', valid_locations st' reqs job cands = Ok v' ->
+  (length v' < n)%nat /\ attempt st' job cands reqs n chosen = Ok (st', map chain_name v', false).
+Proof. exact round_quiescent. Qed.
+
+(* every state reached by a conformant history satisfies the invariant the round starts from *)
+Theorem C12_reachable_states_satisfy_Inv : forall locs,
+  (forall l1 l2, In l1 locs -> In l2 locs -> lv_name l1 = lv_name l2 -> l1 = l2) ->
+  (forall l cap, In l locs -> lv_cap l = Some cap -> wfr cap /\ In "/" (mounts cap)) ->
+  forall es st G st', Inv locs st G -> conformant locs st es -> run st es = Ok st' -> Inv locs st' (measured st es G).
+Proof. exact inv_run. Qed.
+
+Example C12_quiescent_hypotheses_met :
+  Inv hw_locs init g0 /\ conformant hw_locs init ex_round /\ only_attempts ex_round /\
+  (exists st', run init ex_round = Ok st' /\
+     attempt init "/s/9" [[ex_level]] big_reqs 1 [] = Ok (init, [], false) /\
+     attempt st' "/s/9" [[ex_level]] big_reqs 1 [] = Ok (st', [], false) /\
+     job_active st' "/s/0" = true).
+Proof.
+  split; [apply inv_init|]. split; [exact ex_round_conformant|]. split; [exact ex_round_attempts|].
+  eexists. split; [vm_compute; reflexivity|]. vm_compute. repeat split; reflexivity.
+Qed.
+
 (* known finding: after ROLLBACK of /s0/1 nothing is fireable or running, yet /s0/0.9 finds no valid location *)
 Theorem C12_rollback_blocks_refuted :
   exists st, run init rollback_history = Ok st /\ no_active (Ok st) = true /\
@@ -62,4 +126,8 @@ Print Assumptions C12_waits_when_short.
 Print Assumptions C12_failed_evaluation_changes_nothing.
 Print Assumptions C12_valid_locations_exact.
 Print Assumptions C12_slot_validity.
+Print Assumptions C12_valid_iff_fits.
+Print Assumptions C12_quiescent_partial.
+Print Assumptions C12_quiescent.
+Print Assumptions C12_reachable_states_satisfy_Inv.
 Print Assumptions C12_rollback_blocks_refuted.
